@@ -803,6 +803,15 @@ func (ctx Ctx) callExpr(s *ast.CallExpr) coq.Expr {
 		if signature, ok := ctx.typeOf(s.Fun).(*types.Signature); ok {
 			for j := 0; j < signature.Params().Len(); j++ {
 				if _, ok := signature.Params().At(j).Type().Underlying().(*types.Interface); ok {
+					if j != 0 {
+						// only the first argument is wrapped in a conversion below
+						if j < len(s.Args) {
+							if _, isIface := ctx.typeOf(s.Args[j]).Underlying().(*types.Interface); !isIface {
+								ctx.unsupported(s.Args[j], "conversion to an interface for a parameter other than the first")
+							}
+						}
+						continue
+					}
 					interfaceName := signature.Params().At(j).Type().String()
 					structName := ctx.typeOf(s.Args[0]).String()
 					interfaceName = unqualifyName(interfaceName)
